@@ -25,6 +25,7 @@ EPS = np.finfo(float).eps
 CFL = 0.5
 HORIZON = 3.0      # seconds allowed to one solve/restart call (they take 1-50 ms); a call that exceeds it is reported
 MAX_TIMEOUTS = 3   # a shard stops exploring after that many non-terminating calls (each costs HORIZON)
+LATE = float(2 ** 27)
 TICKS = [0.0, 0.25, 0.375, 0.5, 0.75, 1.0, 1.25, 2.0]
 
 
@@ -410,7 +411,8 @@ def run(ctx):
     names = list(space.integrators())
     systems = ["conv8", "burgers4", "euler4"]
     ctx.pmap("step-time-advance", shard_step, names)
-    cfg = [(i, s, t0, ctx.tier) for i in names for s in systems for t0 in (0.0, 0.75)]
+    # start times: 0, a generic one, and a very late one (2^27: one step is a few 1e-10 of the clock, still ~1e6 ulps of it)
+    cfg = [(i, s, t0, ctx.tier) for i in names for s in systems for t0 in (0.0, 0.75, LATE)]
     if ctx.thorough:
         # another CFL number (steps not exactly representable), save times handed over as a numpy array instead of a list
         cfg += [(i, s, t0, "quick", 0.3, True) for i in names for s in systems for t0 in (0.0, 0.75)]
